@@ -215,6 +215,10 @@ func runUnbound(sc *Scenario) (res Result) {
 	if sc.Gated {
 		warmUp(sc.Caps0())
 	}
+	if sc.PreCancel {
+		u.cancelled = true
+		cancel()
+	}
 	u.rcv, u.snd = pipe.New[int](ctx, sc.Caps0())
 	fail := func(m string) Result {
 		res.Msg = m
